@@ -249,11 +249,41 @@ pub fn run(mode: Mode, tier: Tier, seed: u64) -> i32 {
     let id: &'static str = if mode == Mode::C09 { "C09" } else { "C12" };
     let mut total = Stats::default();
 
+    // ---- character strings ----------------------------------------------------------
+    let l = tier.pick(6usize, 7usize);
+    for (what, prefix, l) in [("whole text", "", l), ("body after the header 'A B'", "A B\n", l), ("text after a byte order mark", "\u{feff}", l - 1), ("body after a non-ASCII header", "Zähler Ü\n", l - 1)] {
+        let n: u64 = (0..=l as u32).map(|k| 16u64.pow(k)).sum();
+        let label = format!("all strings of length <= {l} over 16 characters as {what}");
+        let st = par_range(&label, n, &deadline, |mut idx, st| {
+            // decode: strings ordered by length then lexicographically
+            let mut len = 0;
+            while idx >= 16u64.pow(len) {
+                idx -= 16u64.pow(len);
+                len += 1;
+            }
+            let mut s = String::from(prefix);
+            for _ in 0..len {
+                s.push(CHARS[(idx % 16) as usize]);
+                idx /= 16;
+            }
+            thread_local! { static RENDERED: std::cell::RefCell<HashSet<u64>> = std::cell::RefCell::new(HashSet::new()); }
+            RENDERED.with(|r| {
+                check_text(mode, &s, (1 << 60) + len as u64, &mut r.borrow_mut(), st);
+            });
+            if s.chars().any(|c| !c.is_ascii()) {
+                st.witness("text_with_multibyte_characters");
+            }
+        });
+        total.merge(st);
+    }
+
     // ---- token prefix tree ----------------------------------------------------------
     let headers: Vec<(&str, usize, usize)> = match tier {
         // (header, depth below the empty body, depth below each seed)
         Tier::Quick => vec![("A B", 7, 5), ("A", 6, 4), ("A B Q", 6, 4)],
-        Tier::Thorough => vec![("A B", 9, 7), ("A", 8, 6), ("A B Q", 8, 6)],
+        // the last entry is an attempt one level deeper under the remaining wall time: if the cap
+        // stops it, the run reports the cap and is exhaustive only to the depths above
+        Tier::Thorough => vec![("A B", 8, 6), ("A", 7, 5), ("A B Q", 7, 5), ("A B", 9, 0)],
     };
     for (hdr, depth0, depth_seed) in &headers {
         // unit of work: (seed, first token); the subtree below is walked sequentially
@@ -263,6 +293,9 @@ pub fn run(mode: Mode, tier: Tier, seed: u64) -> i32 {
         let st = par_range(&label, units.len() as u64, &deadline, |u, st| {
             let (s, t, t2) = units[u as usize];
             let depth = if s == 0 { *depth0 } else { *depth_seed };
+            if depth == 0 {
+                return;
+            }
             let first = if t < SIGMA.len() { SIGMA[t] } else { EXTRA[t - SIGMA.len()] };
             let mut text = format!("{hdr}\n{}", SEEDS[s]);
             let mut rendered = HashSet::new();
@@ -300,34 +333,6 @@ pub fn run(mode: Mode, tier: Tier, seed: u64) -> i32 {
             let nodes = st.evals - before;
             st.space(&format!("token tree nodes (texts), header '{hdr}'"), nodes);
             st.max_depth = st.max_depth.max(depth as u64);
-        });
-        total.merge(st);
-    }
-
-    // ---- character strings ----------------------------------------------------------
-    let l = tier.pick(6usize, 7usize);
-    for (what, prefix) in [("whole text", ""), ("body after the header 'A B'", "A B\n")] {
-        let n: u64 = (0..=l as u32).map(|k| 16u64.pow(k)).sum();
-        let label = format!("all strings of length <= {l} over 16 characters as {what}");
-        let st = par_range(&label, n, &deadline, |mut idx, st| {
-            // decode: strings ordered by length then lexicographically
-            let mut len = 0;
-            while idx >= 16u64.pow(len) {
-                idx -= 16u64.pow(len);
-                len += 1;
-            }
-            let mut s = String::from(prefix);
-            for _ in 0..len {
-                s.push(CHARS[(idx % 16) as usize]);
-                idx /= 16;
-            }
-            thread_local! { static RENDERED: std::cell::RefCell<HashSet<u64>> = std::cell::RefCell::new(HashSet::new()); }
-            RENDERED.with(|r| {
-                check_text(mode, &s, (1 << 60) + len as u64, &mut r.borrow_mut(), st);
-            });
-            if s.chars().any(|c| !c.is_ascii()) {
-                st.witness("text_with_multibyte_characters");
-            }
         });
         total.merge(st);
     }
